@@ -19,6 +19,7 @@ package counter
 // and reported as records; the harness itself never fails for them.
 
 import (
+	"bytes"
 	"crypto/sha256"
 	"encoding/binary"
 	"encoding/hex"
@@ -444,5 +445,367 @@ func TestVerifC05Faults(t *testing.T) {
 	}
 }
 
-var _ = binary.LittleEndian
-var _ = sort.Strings
+
+// ------------------------------------------------------- corrupt files at rest
+
+// One case of Corrupt.tla: the damage classes of the file and the operation.
+type c05CCase struct {
+	ID    int    `json:"id"`
+	Hdr   string `json:"hdr"`
+	Trunc string `json:"trunc"`
+	Limit string `json:"limit"`
+	HeadE string `json:"headE"`
+	HeadN string `json:"headN"`
+	NlenC string `json:"nlenC"`
+	NextC string `json:"nextC"`
+	NextE string `json:"nextE"`
+	Op    string `json:"op"` // addE | addN | addM
+}
+
+// The undamaged file: records E and C share a bucket (chain head -> C -> E),
+// long-named fillers use up the first page, V lives alone in its bucket on
+// the second page.  N is a new name whose bucket is empty, M a new name that
+// collides with E and C.
+type c05Base struct {
+	data                 []byte
+	hdrLen               uint32
+	nameE, nameC, nameV  string
+	nameN, nameM         string
+	offE, offC, offV     uint32
+	bE, bN, bV           uint32
+	limit                uint32
+	emptySlots           uint32 // offset inside the hash table, 32-aligned, 64 bytes of zero slots
+	names                map[string]string // real name -> short
+}
+
+var c05base *c05Base
+
+func c05MakeBase(t *testing.T) *c05Base {
+	if c05base != nil {
+		return c05base
+	}
+	b := &c05Base{names: map[string]string{}}
+	meta := c05Meta(c05T1)
+	b.hdrLen = rt.V1HeaderLen(meta)
+	b.nameE = "e"
+	b.bE = rt.V1Hash(b.nameE)
+	find := func(prefix string, ok func(h uint32) bool) string {
+		for i := 0; ; i++ {
+			n := fmt.Sprintf("%s%d", prefix, i)
+			if ok(rt.V1Hash(n)) {
+				return n
+			}
+		}
+	}
+	b.nameC = find("c", func(h uint32) bool { return h == b.bE })
+	b.nameM = find("m", func(h uint32) bool { return h == b.bE })
+	b.nameV = find("v", func(h uint32) bool { return h != b.bE && h >= 100 && h < 400 })
+	b.bV = rt.V1Hash(b.nameV)
+	used := map[uint32]bool{b.bE: true, b.bV: true}
+	es := []rt.V1Entry{{Name: b.nameE, Value: 5}, {Name: b.nameC, Value: 6}}
+	lim := uint32(0)
+	for _, e := range es {
+		_, lim = rt.V1Place(b.hdrLen, lim, len(e.Name))
+	}
+	for i := 0; ; i++ {
+		_, end := rt.V1Place(b.hdrLen, lim, c05LongLen)
+		if end > rt.V1Page {
+			break
+		}
+		n := ""
+		for j := 0; ; j++ {
+			n = c05RealName(fmt.Sprintf("Lfill%02d.%d", i, j))
+			// keep the fillers' buckets away from the slots the damage classes use
+			if h := rt.V1Hash(n); !used[h] && h >= 8 && (h < 440 || h > 470) {
+				used[h] = true
+				break
+			}
+		}
+		es = append(es, rt.V1Entry{Name: n, Value: uint64(10 + i)})
+		b.names[n] = fmt.Sprintf("Lfill%02d", i)
+		lim = end
+	}
+	// V: a long name too, so that it cannot fit the rest of page one
+	b.nameV = ""
+	for j := 0; ; j++ {
+		n := c05RealName(fmt.Sprintf("Lv.%d", j))
+		if h := rt.V1Hash(n); !used[h] && h >= 100 && h < 400 {
+			b.nameV, b.bV = n, h
+			used[h] = true
+			break
+		}
+	}
+	b.names[b.nameV] = "v"
+	es = append(es, rt.V1Entry{Name: b.nameV, Value: 7})
+	b.nameN = find("n", func(h uint32) bool { return !used[h] && h >= 8 && (h < 440 || h > 470) })
+	b.bN = rt.V1Hash(b.nameN)
+	data, err := rt.WriteV1(meta, es)
+	if err != nil {
+		t.Fatal(err)
+	}
+	b.data = data
+	dec := rt.DecodeV1(data)
+	if !dec.WellFormed() || len(data) != 2*rt.V1Page {
+		t.Fatalf("c05 base file: size %d problems %v", len(data), dec.Problems)
+	}
+	for _, r := range dec.Records {
+		switch r.Name {
+		case b.nameE:
+			b.offE = r.Off
+		case b.nameC:
+			b.offC = r.Off
+		case b.nameV:
+			b.offV = r.Off
+		}
+	}
+	if b.offV < rt.V1Page || b.offC > rt.V1Page || b.offE != (b.hdrLen+4+4*rt.V1NumHash+31)&^31 {
+		t.Fatalf("c05 base file layout: E %#x C %#x V %#x", b.offE, b.offC, b.offV)
+	}
+	b.limit = dec.Limit
+	b.emptySlots = (b.hdrLen + 4 + 4*448 + 31) &^ 31 // buckets 440..470 are unused
+	c05base = b
+	return b
+}
+
+func put32(data []byte, off uint32, v uint32) {
+	if int(off)+4 <= len(data) {
+		binary.LittleEndian.PutUint32(data[off:], v)
+	}
+}
+
+// c05Concretize builds the bytes of one corrupt file.
+func c05Concretize(b *c05Base, c *c05CCase) []byte {
+	data := append([]byte(nil), b.data...)
+	size := uint32(len(data))
+	tab := b.hdrLen + 4
+	badOff := func(class string) (uint32, bool) {
+		switch class {
+		case "hdr":
+			return 64, true
+		case "table":
+			return b.emptySlots, true
+		case "unaligned":
+			return b.offV + 4, true
+		case "gelimit":
+			return ((b.limit + 31) &^ 31) + 64, true
+		case "gefile":
+			return size + 32, true
+		}
+		return 0, false
+	}
+	switch c.Limit {
+	case "zero":
+		put32(data, b.hdrLen, 0)
+	case "hdr":
+		put32(data, b.hdrLen, 64)
+	case "table":
+		put32(data, b.hdrLen, (tab+4*b.bV)&^31) // the record written there covers V's bucket head
+	case "low":
+		put32(data, b.hdrLen, b.offC)
+	case "unaligned":
+		put32(data, b.hdrLen, b.limit+4)
+	case "beyondfile":
+		put32(data, b.hdrLen, size+rt.V1Page)
+	case "near32":
+		put32(data, b.hdrLen, 0xfffffff0)
+	}
+	switch c.HeadE {
+	case "ok":
+	case "zero":
+		put32(data, tab+4*b.bE, 0)
+	default:
+		off, _ := badOff(c.HeadE)
+		put32(data, tab+4*b.bE, off)
+	}
+	switch c.HeadN {
+	case "zero":
+	case "valid":
+		put32(data, tab+4*b.bN, b.offV)
+	default:
+		off, _ := badOff(c.HeadN)
+		put32(data, tab+4*b.bN, off)
+	}
+	switch c.NlenC {
+	case "zero":
+		put32(data, b.offC+8, 0xff000000)
+	case "pastpage":
+		put32(data, b.offC+8, 0xff000000|rt.V1Page)
+	case "pastfile":
+		put32(data, b.offC+8, 0xffffffff)
+	}
+	next := func(at uint32, class string) {
+		switch class {
+		case "zero":
+			put32(data, at+12, 0)
+		case "self":
+			put32(data, at+12, at)
+		case "other":
+			put32(data, at+12, b.offV)
+		case "cycle2":
+			put32(data, at+12, b.offC)
+		case "range":
+			put32(data, at+12, size+64)
+		case "ffff":
+			put32(data, at+12, 0xffffffff)
+		}
+	}
+	next(b.offC, c.NextC)
+	next(b.offE, c.NextE)
+	switch c.Hdr {
+	case "len0":
+		put32(data, 28, 0)
+	case "lensmall":
+		put32(data, 28, 5)
+	case "lenplus":
+		put32(data, 28, b.hdrLen+32)
+	case "lenpage":
+		put32(data, 28, rt.V1Page+32)
+	case "lenhuge":
+		put32(data, 28, 0x7fffffe0)
+	case "prefix":
+		data[2] ^= 0x20
+	case "meta":
+		data[40] ^= 0x01
+	}
+	switch c.Trunc {
+	case "zero":
+		data = data[:0]
+	case "pageminus1":
+		data = data[:rt.V1Page-1]
+	case "onepage":
+		data = data[:rt.V1Page]
+	}
+	return data
+}
+
+func c05Reachable(b *c05Base, data []byte) map[string]uint64 {
+	m := map[string]uint64{}
+	for _, r := range rt.DecodeV1(data).Records {
+		n := r.Name
+		if s, ok := b.names[n]; ok {
+			n = s
+		} else if len(n) > 40 {
+			n = fmt.Sprintf("long(%d):%s", len(n), c05Sha([]byte(n)))
+		}
+		if _, dup := m[n]; !dup {
+			m[n] = r.Value
+		}
+	}
+	return m
+}
+
+func c05RunCorrupt(t *testing.T, b *c05Base, c *c05CCase, budget int) {
+	w := &c05World{t: t, dir: filepath.Join(t.TempDir(), "tele"), f: new(file), ctrs: map[string]*Counter{}, short: map[string]string{}, now: c05T1}
+	c05w = w
+	telemetry.Default = telemetry.NewDir(w.dir)
+	CounterTime = func() time.Time { return w.now }
+	memmap, munmap = c05Memmap, c05Munmap
+	w.f.buildInfo = c05BuildInfo()
+	local := telemetry.Default.LocalDir()
+	os.MkdirAll(local, 0777)
+	os.WriteFile(filepath.Join(local, "weekends"), []byte("2\n"), 0666)
+	os.WriteFile(filepath.Join(w.dir, "mode"), []byte("local"), 0666)
+	path := filepath.Join(local, c05CountName(c05T1))
+	orig := c05Concretize(b, c)
+	if err := os.WriteFile(path, orig, 0666); err != nil {
+		t.Fatal(err)
+	}
+	defer func() {
+		c05w = nil
+		if m := w.f.current.Raw(); m != nil {
+			m.close()
+		}
+		w.release()
+		memmap, munmap = mmap.Mmap, mmap.Munmap
+		os.RemoveAll(filepath.Dir(w.dir))
+	}()
+	before := c05Reachable(b, orig)
+	out := rt.M{"kind": "case", "id": c.ID, "open": "", "ret": "ok", "steps": 0, "where": "", "text": "", "mode": "", "dP": 0, "dE": 0,
+		"others": false, "untouched": false, "lost": "", "size": len(orig)}
+	ret, n, where, text := c05h.Run("open", budget, func() { w.f.rotate1() })
+	out["steps"] = n
+	if ret != "ok" {
+		out["ret"], out["where"], out["text"], out["stage"] = ret, where, text, "open"
+		rt.Out(out)
+		return
+	}
+	switch {
+	case w.f.err != nil && w.f.current.Raw() == nil:
+		out["open"] = "parks"
+	case w.f.err == nil && w.f.current.Raw() != nil:
+		out["open"] = "opens"
+	default:
+		out["open"] = "inconsistent"
+	}
+	name, short := "", ""
+	switch c.Op {
+	case "addE":
+		name, short = b.nameE, "e"
+	case "addN":
+		name, short = b.nameN, b.nameN
+	case "addM":
+		name, short = b.nameM, b.nameM
+	}
+	ctr := &Counter{name: name, file: w.f}
+	const amount = 3
+	ret, n, where, text = c05h.Run(c.Op, budget, func() { ctr.Add(amount) })
+	out["steps"] = n
+	if ret != "ok" {
+		out["ret"], out["where"], out["text"], out["stage"] = ret, where, text, "add"
+	}
+	after, err := os.ReadFile(path)
+	if err != nil {
+		out["lost"] = "count file unreadable: " + err.Error()
+		out["others"] = true
+		rt.Out(out)
+		return
+	}
+	out["untouched"] = bytes.Equal(after, orig)
+	reach := c05Reachable(b, after)
+	var lost []string
+	for k, v := range before {
+		if k == short {
+			continue
+		}
+		if v2, ok := reach[k]; !ok || v2 != v {
+			lost = append(lost, fmt.Sprintf("%s: %d -> %d (reachable=%v)", k, v, v2, ok))
+		}
+	}
+	sort.Strings(lost)
+	if len(lost) > 0 {
+		out["others"] = true
+		out["lost"] = strings.Join(lost, "; ")
+	}
+	dP := int64(reach[short]) - int64(before[short])
+	dE := int64(counterStateBits(ctr.state.bits.Raw()).extra())
+	out["dP"], out["dE"] = dP, dE
+	switch {
+	case dP == amount && dE == 0:
+		out["mode"] = "persist"
+	case dP == 0 && dE == amount:
+		out["mode"] = "memory"
+	default:
+		out["mode"] = "other"
+	}
+	rt.Out(out)
+}
+
+func TestVerifC05Corrupt(t *testing.T) {
+	defer rt.Flush()
+	var in struct {
+		Cases  []c05CCase `json:"cases"`
+		Budget int        `json:"budget"`
+	}
+	if err := rt.In(&in); err != nil {
+		t.Skip(err)
+	}
+	if in.Budget == 0 {
+		in.Budget = 200000
+	}
+	b := c05MakeBase(t)
+	rt.Out(rt.M{"kind": "base", "hdrLen": b.hdrLen, "offE": b.offE, "offC": b.offC, "offV": b.offV, "bE": b.bE, "bN": b.bN, "bV": b.bV,
+		"limit": b.limit, "size": len(b.data), "nameC": b.nameC, "nameN": b.nameN, "nameM": b.nameM})
+	for i := range in.Cases {
+		c05RunCorrupt(t, b, &in.Cases[i], in.Budget)
+	}
+}
